@@ -281,6 +281,16 @@ def run(ctx) -> None:
     ctx.check(not re.match(r"(reversed|sorted)\(", H.text), RO, "hand-over iterates the grouped list in order", f"iterates `{H.text}`", rf.loc)
     hb = H.extra["paths"]
     ctx.count("handover_paths", len(hb))
+    # every element of the batch is visited: no iteration leaves the loop (an `any(...)` over a generator of hand-overs leaves at the
+    # first true result; so does a break after the root's marker)
+    leaving = [p for p in hb if p.outcome == ("break",) or p.outcome[0] == "return"]
+    ctx.check(
+        not leaving,
+        RQ,
+        "hand-over visits every element of the batch",
+        f"an iteration of the hand-over loop leaves it ({leaving[0].outcome[0] if leaving else ''} on [{leaving[0].sig()[:90] if leaving else ''}]): the grouped events after that element in the same read batch are never handed over (lost)",
+        rf.loc,
+    )
     for p in hb:
         c = p.conds()
         puts = [e for e in p.evs if e.kind == "call" and e.extra.get("func") == "self._queue.put"]
